@@ -10,7 +10,7 @@ CHECKS = {}
 
 CHECKS['C02'] = {
     'jobs': {'quick': [J('c02_clock.cpp', ['K=3'], wall=240, markers=(1, 2, 3)), J('c02_clock.cpp', ['K=3', 'TIES'], wall=200, markers=(1, 3))],
-             'thorough': [J('c02_clock.cpp', ['K=4'], wall=1500, markers=(1, 2, 3))]},
+             'thorough': [J('c02_clock.cpp', ['K=4'], wall=700, markers=(1, 2, 3))]},
     'opts': {'check_nsw': True},
     'bounds': {'quick': 'programs of K=3 ops over {nop, arm timer at now+d, arm timer at absolute t, post, stop, cancel the newest pending timer, arm a timer without waiting on it, re-arm such a timer with a wait}, 3 timers, '
                         'd and t symbolic 64-bit in [-2^40, 2^40] ns, any split of the ops between outside run() and inside handlers',
@@ -24,7 +24,7 @@ CHECKS['C03'] = {
     'jobs': {'quick': [J('c03_timers.cpp', ['K=3', 'NT=2'], wall=280, markers=(1, 2, 3)),
                        J('c03_timers.cpp', ['K=3', 'NT=2', 'TIES'], wall=200, markers=(1, 2, 3)),
                        J('c03_timers.cpp', ['K=2', 'NT=2', 'EXPIRED'], wall=120, markers=(1, 2))],
-             'thorough': [J('c03_timers.cpp', ['K=4', 'NT=2'], wall=1700, markers=(1, 2, 3)), J('c03_timers.cpp', ['K=3', 'NT=3'], wall=600, markers=(1, 2, 3)),
+             'thorough': [J('c03_timers.cpp', ['K=4', 'NT=2'], wall=700, markers=(1, 2, 3)), J('c03_timers.cpp', ['K=3', 'NT=3'], wall=600, markers=(1, 2, 3)),
                           J('c03_timers.cpp', ['K=3', 'NT=2', 'TIES'], wall=600, markers=(1, 2, 3)), J('c03_timers.cpp', ['K=3', 'NT=2', 'EXPIRED'], wall=600, markers=(1, 2))]},
     'bounds': {'quick': 'sequences of K=3 ops over 2 timers from {expires_at(k*u), expires_after(k*u), async_wait, cancel, cancel_one, destroy+recreate}, '
                         'k in {-1,0,1,2}, u symbolic in [1,1e9] ns; ops issued all outside run() or the first outside and the rest one per completion handler; plus K=2 after the preset "both timers armed for the same instant with waits outstanding" and K=2 after the preset "timer 0 armed and never waited on, timer 1 waiting for twice as long"',
@@ -38,9 +38,9 @@ CHECKS['C09'] = {
                        J('c09_queue.cpp', ['MODE=0', 'HOPS=1', 'NPKT=3', 'LATC'], wall=250, markers=(1, 3)),
                        J('c09_queue.cpp', ['MODE=0', 'HOPS=2', 'NPKT=2', 'LATC'], wall=250, markers=(1, 3)),
                        J('c09_queue.cpp', ['MODE=2', 'HOPS=1', 'NPKT=1', 'NCHUNK=2'], wall=250, markers=(1,), opts={'solver_timeout_ms': 120000})],
-             'thorough': [J('c09_queue.cpp', ['MODE=0', 'HOPS=1', 'NPKT=4'], wall=1500, markers=(1, 3)),
-                          J('c09_queue.cpp', ['MODE=0', 'HOPS=2', 'NPKT=3'], wall=1500, markers=(1, 3)),
-                          J('c09_queue.cpp', ['MODE=2', 'HOPS=1', 'NPKT=1', 'NCHUNK=47'], wall=1500, markers=(1,), opts={'solver_timeout_ms': 300000})]},
+             'thorough': [J('c09_queue.cpp', ['MODE=0', 'HOPS=1', 'NPKT=4'], wall=700, markers=(1, 3)),
+                          J('c09_queue.cpp', ['MODE=0', 'HOPS=2', 'NPKT=3'], wall=700, markers=(1, 3)),
+                          J('c09_queue.cpp', ['MODE=2', 'HOPS=1', 'NPKT=1', 'NCHUNK=47'], wall=700, markers=(1,), opts={'solver_timeout_ms': 300000})]},
     'opts': {'check_nsw': True},
     'bounds': {'quick': 'scheduling: 1 queue x 2 packets with symbolic latency (0..10 s) and capacity; 1 queue x 3 packets and 2 queues in series x 2 packets with latency from {0,1ms,3s} and capacity {0,2100}; bandwidth from {0,56k,1e9} B/s; packet sizes 1500/20/548 by position; '
                         'latency symbolic 0..10 s; capacity 0 or symbolic 1..100000; packet size from {20,548,1500}(+5 payload bytes on odd packets); arrival gaps 0 or symbolic 1 ns..2 s. '
@@ -56,10 +56,10 @@ CHECKS['C10'] = {
                        J('c09_queue.cpp', ['MODE=1', 'HOPS=2', 'NPKT=2'], wall=250, markers=(1, 2, 3)),
                        J('c09_queue.cpp', ['MODE=3', 'HOPS=1', 'NPKT=2'], wall=250, markers=(1, 2, 3)),
                        J('c09_queue.cpp', ['MODE=1', 'HOPS=1', 'NPKT=3', 'REENTER'], wall=250, markers=(1, 2, 3))],
-             'thorough': [J('c09_queue.cpp', ['MODE=1', 'HOPS=1', 'NPKT=4'], wall=1500, markers=(1, 2, 3)),
-                          J('c09_queue.cpp', ['MODE=1', 'HOPS=2', 'NPKT=3'], wall=1500, markers=(1, 2, 3)),
-                          J('c09_queue.cpp', ['MODE=3', 'HOPS=1', 'NPKT=4'], wall=1500, markers=(1, 2, 3)),
-                          J('c09_queue.cpp', ['MODE=3', 'HOPS=2', 'NPKT=3'], wall=1500, markers=(1, 2, 3))]},
+             'thorough': [J('c09_queue.cpp', ['MODE=1', 'HOPS=1', 'NPKT=4'], wall=700, markers=(1, 2, 3)),
+                          J('c09_queue.cpp', ['MODE=1', 'HOPS=2', 'NPKT=3'], wall=700, markers=(1, 2, 3)),
+                          J('c09_queue.cpp', ['MODE=3', 'HOPS=1', 'NPKT=4'], wall=700, markers=(1, 2, 3)),
+                          J('c09_queue.cpp', ['MODE=3', 'HOPS=2', 'NPKT=3'], wall=700, markers=(1, 2, 3))]},
     'bounds': {'quick': 're-entrant arrival: the last packet is injected into the queue from inside the forwarding call of the first; symbolic sizes: 1 queue x 3 packets, 2 queues x 2 packets, capacity symbolic 0..5000 bytes, infinitely fast link with latency 0 or symbolic, packet type symbolic over all 5 types, '
                         'overhead symbolic 20..1500, bursts (gap 0) and spaced arrivals, one packet without a drop callback; rate-limited link {1k,56k B/s}: 1 queue x 2 packets with sizes from {20,548,1500}',
                'thorough': '4 packets on 1 queue, 3 packets over 2 queues, in both regimes'},
@@ -87,7 +87,7 @@ CHECKS['C15'] = {
 
 CHECKS['C11'] = {
     'jobs': {'quick': [J('c11_registry.cpp', ['K=2', 'OBJSET=0'], wall=280, markers=(1, 2))],
-             'thorough': [J('c11_registry.cpp', ['K=3', 'OBJSET=1'], wall=1700, markers=(1, 3)), J('c11_registry.cpp', ['K=3', 'OBJSET=2'], wall=1700, markers=(1, 2))]},
+             'thorough': [J('c11_registry.cpp', ['K=3', 'OBJSET=1'], wall=700, markers=(1, 3)), J('c11_registry.cpp', ['K=3', 'OBJSET=2'], wall=700, markers=(1, 2))]},
     'bounds': {'quick': 'every sequence of K=2 operations from {open v4/v6, bind (9 endpoint forms: explicit, port 0, privileged, second address, wildcard v4/v6, foreign, v6, the port the ephemeral counter points at), close, destroy+recreate, '
                         'move-construct, listen} over 2 TCP sockets, 1 acceptor and 2 UDP sockets of a node with two IPv4 and one IPv6 address; ephemeral counter at 2000 or about to wrap; helper sockets hold port 2001 in both protocols (an ephemeral search may have to skip two ports); '
                         'then datagram probes to 6 endpoints and a connect probe from a second node, the accepted socket moved, closed and the acceptor re-probed',
@@ -99,7 +99,7 @@ CHECKS['C11'] = {
 CHECKS['C08'] = {
     'jobs': {'quick': [J('c08_udp.cpp', ['SCEN=0', 'NDG=2'], wall=250, markers=(1, 2)), J('c08_udp.cpp', ['SCEN=1', 'NDG=2'], wall=250, markers=(1, 2, 3)),
                        J('c08_udp.cpp', ['SCEN=2'], wall=100, markers=(1,))],
-             'thorough': [J('c08_udp.cpp', ['SCEN=0', 'NDG=3'], wall=1700, markers=(1, 2)), J('c08_udp.cpp', ['SCEN=1', 'NDG=3'], wall=1200, markers=(1, 2, 3)),
+             'thorough': [J('c08_udp.cpp', ['SCEN=0', 'NDG=3'], wall=700, markers=(1, 2)), J('c08_udp.cpp', ['SCEN=1', 'NDG=3'], wall=700, markers=(1, 2, 3)),
                           J('c08_udp.cpp', ['SCEN=2'], wall=100, markers=(1,))]},
     'bounds': {'quick': 'SCEN0: 2 datagrams of 1..4 symbolic bytes, 1- or 2-buffer send layouts, burst/spaced, reader style async_receive_from / async_receive / wait+receive_from, receive '
                         'buffers 8 / 1 / 1+2 bytes, reader armed before or after arrival, optional symbolic-latency hop. SCEN1: 1-2 datagrams in flight or queued unread while the destination socket is '
@@ -111,7 +111,7 @@ CHECKS['C08'] = {
 
 CHECKS['C14'] = {
     'jobs': {'quick': [J('c14_resolver.cpp', ['K=3', 'PROTO=0', 'SMALL'], wall=280, markers=(1, 2)), J('c14_resolver.cpp', ['K=2', 'PROTO=1'], wall=120, markers=(1, 2))],
-             'thorough': [J('c14_resolver.cpp', ['K=4', 'PROTO=0'], wall=1700, markers=(1, 2)), J('c14_resolver.cpp', ['K=3', 'PROTO=1'], wall=900, markers=(1, 2))]},
+             'thorough': [J('c14_resolver.cpp', ['K=4', 'PROTO=0'], wall=700, markers=(1, 2)), J('c14_resolver.cpp', ['K=3', 'PROTO=1'], wall=700, markers=(1, 2))]},
     'bounds': {'quick': 'K=3 operations from {resolve host name (3 names; latency 0/1us or symbolic 1ns..1s; 1-2 addresses or host_not_found), resolve IPv4 literal, resolve IPv6 literal, cancel(), '
                         'cancel() from inside the next completion handler} issued at symbolic instants (gap 0 or 1ns..300ms) on a TCP resolver (K=3) and a UDP resolver (K=2); services 80/0/65535 on the first resolve',
                'thorough': 'K=4'},
@@ -125,11 +125,11 @@ CHECKS['C05'] = {
                        J('c05_tcp.cpp', ['LEN=4', 'LOSS=0', 'DIR=0', 'MOVES'], wall=200, markers=(1, 2, 5)),
                        J('c05_tcp.cpp', ['LEN=4', 'LOSS=0', 'DIR=1'], wall=120, markers=(1, 2, 5)),
                        J('c05_tcp.cpp', ['LEN=4', 'LOSS=1', 'DROPS=1', 'DIR=0', 'REUSE=1', 'FARDROP'], wall=200, markers=(1, 4))],
-             'thorough': [J('c05_tcp.cpp', ['LEN=8', 'LOSS=1', 'DROPS=4', 'DIR=0'], wall=1700, markers=(1, 2, 3, 5)),
-                          J('c05_tcp.cpp', ['LEN=6', 'LOSS=1', 'DROPS=3', 'DIR=1', 'MTU=3', 'MOVES'], wall=1700, markers=(1, 2, 5)),
-                          J('c05_tcp.cpp', ['LEN=6', 'LOSS=1', 'DROPS=2', 'DIR=0', 'REUSE=1'], wall=900, markers=(1, 4)),
-                          J('c05_tcp.cpp', ['LEN=6', 'LOSS=1', 'DROPS=3', 'DIR=0', 'FARDROP'], wall=1700, markers=(1, 2, 3, 5)),
-                          J('c05_tcp.cpp', ['LEN=6', 'LOSS=1', 'DROPS=2', 'DIR=0', 'REUSE=1', 'FARDROP'], wall=900, markers=(1, 4))]},
+             'thorough': [J('c05_tcp.cpp', ['LEN=8', 'LOSS=1', 'DROPS=4', 'DIR=0'], wall=700, markers=(1, 2, 3, 5)),
+                          J('c05_tcp.cpp', ['LEN=6', 'LOSS=1', 'DROPS=3', 'DIR=1', 'MTU=3', 'MOVES'], wall=700, markers=(1, 2, 5)),
+                          J('c05_tcp.cpp', ['LEN=6', 'LOSS=1', 'DROPS=2', 'DIR=0', 'REUSE=1'], wall=700, markers=(1, 4)),
+                          J('c05_tcp.cpp', ['LEN=6', 'LOSS=1', 'DROPS=3', 'DIR=0', 'FARDROP'], wall=700, markers=(1, 2, 3, 5)),
+                          J('c05_tcp.cpp', ['LEN=6', 'LOSS=1', 'DROPS=2', 'DIR=0', 'REUSE=1', 'FARDROP'], wall=700, markers=(1, 4))]},
     'bounds': {'quick': 'one connection, 5 symbolic payload bytes, path MTU 3 (2-3 segments), write chunk in {1, MTU, MTU+1, all}, 1- or 2-buffer gather writes, read buffers {1}, {2}, {64}, {2+3} and {LEN+8} (scatter reads, one ending exactly at the data), reader armed at once or only after everything (incl. end-of-file) is queued, '
                         'async_read_some or wait+read_some, writer closes or not; the first 2 payload segments are each passed / dropped / held back (reordered) by a hop on the route (9 fault patterns); '
                         'one-byte writes with segments 0 and 2 faulted (two non-adjacent holes); lossless with the connector / the accepted socket moved after establishment or the reader moved after its first read; reverse direction lossless; accepted socket object closed with unread data (first segment passed/dropped/held by a hop behind the network queue, so that later segments are already under way when the drop is reported) and reused for a second two-segment connection',
@@ -142,8 +142,8 @@ CHECKS['C06'] = {
     'jobs': {'quick': [J('c05_tcp.cpp', ['LEN=6', 'LOSS=2', 'PROGRESS=1', 'DIR=0'], wall=280, markers=(1, 2)),
                        J('c05_tcp.cpp', ['LEN=6', 'LOSS=1', 'DROPS=2', 'PROGRESS=1', 'DIR=0', 'NATTED'], wall=280, markers=(1, 2, 3)),
                        J('c05_tcp.cpp', ['LEN=5', 'LOSS=0', 'PROGRESS=1', 'DIR=1'], wall=120, markers=(1, 2))],
-             'thorough': [J('c05_tcp.cpp', ['LEN=9', 'LOSS=2', 'PROGRESS=1', 'DIR=0'], wall=1700, markers=(1, 2)),
-                          J('c05_tcp.cpp', ['LEN=9', 'LOSS=2', 'PROGRESS=1', 'DIR=1', 'MTU=3'], wall=1700, markers=(1, 2))]},
+             'thorough': [J('c05_tcp.cpp', ['LEN=9', 'LOSS=2', 'PROGRESS=1', 'DIR=0'], wall=700, markers=(1, 2)),
+                          J('c05_tcp.cpp', ['LEN=9', 'LOSS=2', 'PROGRESS=1', 'DIR=1', 'MTU=3'], wall=700, markers=(1, 2))]},
     'bounds': {'quick': 'one connection, 6 payload bytes in 2-6 segments (MTU 3), sender-side queue with capacity {1 segment, 2 segments, unlimited}, bandwidth {infinite, 5 kB/s}, latency {0, 1 ms}, '
                         'optional receiver-side queue (capacity 1-2 segments), write chunk / layout / read size / read style symbolic; progress asserted at quiescence (run() returning)',
                'thorough': '9 bytes, both directions'},
@@ -153,7 +153,7 @@ CHECKS['C06'] = {
 
 CHECKS['C07'] = {
     'jobs': {'quick': [J('c07_pairing.cpp', ['NCLI=3'], wall=280, markers=(1, 2))],
-             'thorough': [J('c07_pairing.cpp', ['NCLI=3'], wall=900, markers=(1, 2)), J('c07_pairing.cpp', ['NCLI=3', 'AF6=1'], wall=900, markers=(1, 2))]},
+             'thorough': [J('c07_pairing.cpp', ['NCLI=3'], wall=700, markers=(1, 2)), J('c07_pairing.cpp', ['NCLI=3', 'AF6=1'], wall=700, markers=(1, 2))]},
     'bounds': {'quick': '3 clients on 2 nodes connect to one acceptor on a two-address server node (listening on either address); each accept uses a symbolic overload (3); accepts posted before the SYNs or after they queued up; '
                         'NAT placement none / one client / both / both behind one external address / client and server; one extra connect to the other address or another port (refused); one distinct byte each way per pair; '
                         'finally close() or close(ec) on the acceptor, a late connect (refused), the same acceptor re-opened and bound but not listening (connect refused); IPv4',
@@ -164,7 +164,7 @@ CHECKS['C07'] = {
 CHECKS['C13'] = {
     'jobs': {'quick': [J('c07_pairing.cpp', ['NCLI=2', 'UDPPART=1'], wall=120, markers=(1, 2)), J('c07_pairing.cpp', ['NCLI=2'], wall=280, markers=(1, 2))],
              'thorough': [J('c07_pairing.cpp', ['NCLI=2', 'UDPPART=1'], wall=120, markers=(1, 2)), J('c07_pairing.cpp', ['NCLI=2', 'UDPPART=1', 'AF6=1'], wall=120, markers=(1, 2)),
-                          J('c07_pairing.cpp', ['NCLI=2'], wall=900, markers=(1, 2)), J('c07_pairing.cpp', ['NCLI=2', 'AF6=1'], wall=900, markers=(1, 2))]},
+                          J('c07_pairing.cpp', ['NCLI=2'], wall=700, markers=(1, 2)), J('c07_pairing.cpp', ['NCLI=2', 'AF6=1'], wall=700, markers=(1, 2))]},
     'bounds': {'quick': 'NAT placement none / client 0 / both clients / both clients behind one external address / client 0 and the server; UDP: 3 datagrams (symbolic payload) from two senders, receiver-side sender endpoint, payload, order and arrival time; '
                         'TCP: 2 connections, remote_endpoint()/local_endpoint() on all four sockets, accept peer endpoint, one byte each way', 'thorough': 'plus IPv6'},
     'outside': ['more than 2 nodes behind one NAT', 'NAT in incoming routes (the library documents NAT hops on outgoing routes only)'],
@@ -176,8 +176,8 @@ CHECKS['C20'] = {
                        J('c05_tcp.cpp', ['LEN=5', 'LOSS=0', 'DIR=1', 'MTU=2'], wall=120, markers=(1, 2)),
                        J('c05_tcp.cpp', ['LEN=5', 'LOSS=0', 'DIR=1', 'MTU=3000'], wall=120, markers=(1, 2)),
                        J('c08_udp.cpp', ['SCEN=3'], wall=120, markers=(1, 2, 3))],
-             'thorough': [J('c05_tcp.cpp', ['LEN=8', 'LOSS=1', 'DROPS=2', 'DIR=0', 'MTU=3'], wall=900, markers=(1, 2)),
-                          J('c05_tcp.cpp', ['LEN=8', 'LOSS=1', 'DROPS=2', 'DIR=1', 'MTU=3'], wall=900, markers=(1, 2)),
+             'thorough': [J('c05_tcp.cpp', ['LEN=8', 'LOSS=1', 'DROPS=2', 'DIR=0', 'MTU=3'], wall=700, markers=(1, 2)),
+                          J('c05_tcp.cpp', ['LEN=8', 'LOSS=1', 'DROPS=2', 'DIR=1', 'MTU=3'], wall=700, markers=(1, 2)),
                           J('c05_tcp.cpp', ['LEN=5', 'LOSS=0', 'DIR=1', 'MTU=3000'], wall=120, markers=(1, 2)),
                           J('c08_udp.cpp', ['SCEN=3'], wall=120, markers=(1, 2, 3))]},
     'bounds': {'quick': 'TCP: path MTU 2 and 3000 reported by the configuration, 5 symbolic bytes, both directions (connector sends / accepted socket sends), all write chunkings and layouts of c05_tcp; a probe on the route checks '
@@ -189,7 +189,7 @@ CHECKS['C20'] = {
 
 CHECKS['C04'] = {
     'jobs': {'quick': [J('c04_abort.cpp', ['KMAX=10'], wall=280, markers=(1, 2, 3), opts={'max_instr': 3000000})],
-             'thorough': [J('c04_abort.cpp', ['KMAX=16'], wall=900, markers=(1, 2, 3), opts={'max_instr': 3000000})]},
+             'thorough': [J('c04_abort.cpp', ['KMAX=16'], wall=700, markers=(1, 2, 3), opts={'max_instr': 3000000})]},
     'bounds': {'quick': '14 operation kinds (timer wait; TCP connect, refused connect, read, wait-read, blocked write; the three accepts; UDP receive_from, receive, wait-read, wait-write; resolve) x '
                         '7 interventions (none, cancel, close, destroy, supersede with the same operation / re-arm, handler throws, supersede with the other form of the operation) x every event boundary k in -1..10 (and at quiescence) x awaited event arrives after 3 ms or never',
                'thorough': 'boundaries up to 16'},
@@ -202,8 +202,8 @@ CHECKS['C12'] = {
                        J('c05_tcp.cpp', ['LEN=5', 'LOSS=2', 'PROGRESS=0', 'DIR=0'], wall=200, markers=(1, 2)),
                        J('c05_tcp.cpp', ['LEN=4', 'LOSS=0', 'DIR=0', 'MOVES'], wall=200, markers=(1, 2, 5)),
                        J('c03_timers.cpp', ['K=3', 'NT=2', 'TIES'], wall=200, markers=(1, 2, 3))],
-             'thorough': [J('c04_abort.cpp', ['KMAX=16'], wall=900, markers=(1, 2, 3), opts={'max_instr': 3000000}),
-                          J('c05_tcp.cpp', ['LEN=8', 'LOSS=2', 'PROGRESS=0', 'DIR=0'], wall=900, markers=(1, 2))]},
+             'thorough': [J('c04_abort.cpp', ['KMAX=16'], wall=700, markers=(1, 2, 3), opts={'max_instr': 3000000}),
+                          J('c05_tcp.cpp', ['LEN=8', 'LOSS=2', 'PROGRESS=0', 'DIR=0'], wall=700, markers=(1, 2))]},
     'bounds': CHECKS['C04']['bounds'],
     'outside': ['destruction of a TCP socket while its segments are still queued in a lossy route is covered only for the close() case (c05_tcp LOSS=2); see known findings'],
     'assumptions': ['the engine object model is the memory-safety oracle (freed / dead stack / out of bounds / null / invalid call); confirmed natively under ASan+UBSan+_GLIBCXX_ASSERTIONS'],
@@ -211,7 +211,7 @@ CHECKS['C12'] = {
 
 CHECKS['C19'] = {
     'jobs': {'quick': [J('c19_pcap.cpp', ['LEN=5'], wall=200, markers=(1, 2))],
-             'thorough': [J('c19_pcap.cpp', ['LEN=8'], wall=900, markers=(1, 2))]},
+             'thorough': [J('c19_pcap.cpp', ['LEN=8'], wall=700, markers=(1, 2))]},
     'bounds': {'quick': '1-2 UDP datagrams (1-3 symbolic bytes, both directions) and one TCP connection carrying 5 symbolic bytes in segments of 4 and 1 bytes with each of the first two segments passed or dropped (retransmissions of first and non-first segments), then closed; '
                         'network latency 1 ms, 1.5 s or 4295 s (timestamps across a second boundary and beyond 2^32 microseconds); the capture is re-read by an independent parser: file header, one record per probe-observed transmission in order, timestamps, lengths, '
                         'IPv4/UDP/TCP header fields, sequence numbers, payload bytes',
@@ -222,7 +222,7 @@ CHECKS['C19'] = {
 
 CHECKS['C16'] = {
     'jobs': {'quick': [J('c16_http.cpp', ['NREQ=2'], wall=280, markers=(1, 2, 3), opts={'max_instr': 20000000})],
-             'thorough': [J('c16_http.cpp', ['NREQ=3'], wall=1700, markers=(1, 2, 3), opts={'max_instr': 20000000})]},
+             'thorough': [J('c16_http.cpp', ['NREQ=3'], wall=700, markers=(1, 2, 3), opts={'max_instr': 20000000})]},
     'bounds': {'quick': 'every sequence of 2 requests from {registered handler, unknown path (404), ranged content (206), normalised path with Connection: close, redirect (301), stalled path, malformed}, keep-alive flag on/off, '
                         'the byte stream cut into up to 3 writes at 6 candidate positions (inside the request line, inside the blank line, at / just after the request boundary, before the last byte), writes back to back or 10 ms apart; optionally stop() while the connection is open; '
                         'then a second client, then stop(), a refused connect and a re-bind of the port',
@@ -233,7 +233,7 @@ CHECKS['C16'] = {
 
 CHECKS['C18'] = {
     'jobs': {'quick': [J('c18_proxy.cpp', [], wall=280, markers=(1, 2, 3), opts={'max_instr': 30000000})],
-             'thorough': [J('c18_proxy.cpp', [], wall=900, markers=(1, 2, 3), opts={'max_instr': 30000000})]},
+             'thorough': [J('c18_proxy.cpp', [], wall=700, markers=(1, 2, 3), opts={'max_instr': 30000000})]},
     'bounds': {'quick': 'one request of 8 kinds (literal host:port; a path and query containing colons; named host resolved through the simulated resolver, other method, query; unresolvable name; refused port; default port 80 with nobody listening; '
                         'relative URI; literal with extra header and Host) or two pipelined requests to the same origin (3 pairs); the byte stream cut into up to 3 writes at 5 candidate positions, back to back or 10 ms apart; '
                         'the origin (in the harness) records what it receives and answers distinct fixed responses; then a second client (whose origin must see exactly its own request), then stop() and a refused connect',
@@ -246,7 +246,7 @@ CHECKS['C17'] = {
     'jobs': {'quick': [J('c17_socks.cpp', ['MODE=0'], wall=200, markers=(1, 2, 3), opts={'max_instr': 30000000}),
                        J('c17_socks.cpp', ['MODE=1', 'SMALL'], wall=280, markers=(1, 2), opts={'max_instr': 30000000})],
              'thorough': [J('c17_socks.cpp', ['MODE=0'], wall=600, markers=(1, 2, 3), opts={'max_instr': 30000000}),
-                          J('c17_socks.cpp', ['MODE=1'], wall=1700, markers=(1, 2), opts={'max_instr': 30000000})]},
+                          J('c17_socks.cpp', ['MODE=1'], wall=700, markers=(1, 2), opts={'max_instr': 30000000})]},
     'bounds': {'quick': 'valid: v5 CONNECT by IPv4 / by host name (also a 200-character name) and v4 CONNECT to a reachable, refusing or unresolvable target, one case where the target answers with 4 kB (more than a congestion window), 4 symbolic payload bytes relayed and answered (xor 0x55) by the target, request and payload each cut in up to 2 writes; '
                         'reply codes and command counters checked. malformed: SOCKS4 or 5 server, every negotiation byte symbolic (version, method count from {0,1,2,255}, methods, 9/10 request bytes; in the quick tier: SOCKS5 only, the 4 bytes the parser branches on symbolic and address/port from a small alphabet), 0 or 4 trailing symbolic bytes (quick; 0/2/4 and 3 cut patterns in thorough), '
                         'early end-of-file after 40 ms, while a well-behaved client negotiates and exchanges 4 bytes through the same proxy',
